@@ -135,12 +135,21 @@ func encodeLength(out *bytes.Buffer, length int) (err error) {
 func readObject(ber []byte, offset int) (asn1Object, int, error) {
 	//fmt.Printf("\n====> Starting readObject at offset: %d\n\n", offset)
 	tagStart := offset
+	if offset < 0 || offset >= len(ber) {
+		return nil, 0, errors.New("ber2der: cannot read BER tag: out of data")
+	}
 	b := ber[offset]
 	offset++
 	tag := b & 0x1F // last 5 bits
 	if tag == 0x1F {
 		tag = 0
-		for ber[offset] >= 0x80 {
+		for {
+			if offset >= len(ber) {
+				return nil, 0, errors.New("ber2der: cannot read BER tag: out of data")
+			}
+			if ber[offset] < 0x80 {
+				break
+			}
 			tag = tag*128 + ber[offset] - 0x80
 			offset++
 		}
@@ -159,6 +168,9 @@ func readObject(ber []byte, offset int) (asn1Object, int, error) {
 	*/
 	// read length
 	var length int
+	if offset >= len(ber) {
+		return nil, 0, errors.New("ber2der: cannot read BER length: out of data")
+	}
 	l := ber[offset]
 	offset++
 	indefinite := false
@@ -166,6 +178,9 @@ func readObject(ber []byte, offset int) (asn1Object, int, error) {
 		numberOfBytes := (int)(l & 0x7F)
 		if numberOfBytes > 4 { // int is only guaranteed to be 32bit
 			return nil, 0, errors.New("ber2der: BER tag length too long")
+		}
+		if offset+numberOfBytes > len(ber) {
+			return nil, 0, errors.New("ber2der: cannot read BER length: out of data")
 		}
 		if numberOfBytes == 4 && (int)(ber[offset]) > 0x7F {
 			return nil, 0, errors.New("ber2der: BER tag length is negative")
